@@ -44,10 +44,18 @@ func H_C15_struct() {
 	if k&2 != 0 {
 		ps = append(ps, Pos{0, 1, 0}) // destination position already exists
 	}
-	st := Build(ps, Opts{})
+	fanin := nd.Choice("fanin", 2) == 1
+	st := Build(ps, Opts{NVals: 3})
 	e := st.E
 	U, _ := e.Stk.UnbondingTime(e.Ctx)
 	c := st.T0.Add(U)
+	var r0 math.Int
+	if fanin {
+		// the same delegator already redelegated this asset from ANOTHER source (v2) into the same
+		// destination in this block: same completion time, same queue slot
+		r0 = nd.IntRange("r0", "1", Pow30)
+		InstallRedelegation(e, 0, 2, 1, 0, r0, c)
+	}
 	asset, _ := e.K.GetAssetByDenom(e.Ctx, Denoms[0])
 	preCust := moduleBal(e, Denoms[0])
 	preBal := bal(e, 0, 0)
@@ -55,7 +63,9 @@ func H_C15_struct() {
 	amt := nd.IntRange("amt", "1", Pow30)
 	var err error
 	var ret *time.Time
-	if Caught(func() { ret, err = e.K.Redelegate(e.Ctx, Dels[0], AV(e, Vals[0]), AV(e, Vals[1]), sdk.NewCoin(Denoms[0], amt)) }) || err != nil {
+	if Caught(func() {
+		ret, err = e.K.Redelegate(e.Ctx, Dels[0], AV(e, Vals[0]), AV(e, Vals[1]), sdk.NewCoin(Denoms[0], amt))
+	}) || err != nil {
 		return
 	}
 	moved := types.GetValidatorShares(asset, amt)
@@ -75,8 +85,17 @@ func H_C15_struct() {
 	nd.Assert(id+".src", nd.Or(src.Equal(rest), nd.And(dust, src.IsZero())))
 	nd.Assert(id+".entry", nd.And(hasRedelRecord(e, 0, 0, 1, c), hasRedelIndex(e, 0, c, 0, 1, 0)))
 	q, found := redelQueue(e, c)
-	nd.Assert(id+".queue", found && len(q.Entries) == 1 && q.Entries[0].Balance.Amount.Equal(amt) &&
-		q.Entries[0].SrcValidatorAddress == Vals[0].String() && q.Entries[0].DstValidatorAddress == Vals[1].String())
+	if !fanin {
+		nd.Assert(id+".queue", found && len(q.Entries) == 1 && q.Entries[0].Balance.Amount.Equal(amt) &&
+			q.Entries[0].SrcValidatorAddress == Vals[0].String() && q.Entries[0].DstValidatorAddress == Vals[1].String())
+		return
+	}
+	// one queue entry per source: completion deletes the by-source index of each entry's source
+	nd.Assert(id+".queue", found && len(q.Entries) == 2 &&
+		q.Entries[0].SrcValidatorAddress == Vals[2].String() && q.Entries[0].Balance.Amount.Equal(r0) &&
+		q.Entries[1].SrcValidatorAddress == Vals[0].String() && q.Entries[1].Balance.Amount.Equal(amt) &&
+		q.Entries[1].DstValidatorAddress == Vals[1].String())
+	nd.Assert(id+".entry", hasRedelIndex(e, 2, c, 0, 1, 0))
 }
 
 // H_C15_hop: while an entry into validator 1 is pending the same delegator cannot redelegate
@@ -101,7 +120,9 @@ func H_C15_hop() {
 	amt := nd.IntRange("amt", "1", Pow30)
 	var err error
 	nd.Reach(id)
-	if Caught(func() { _, err = e.K.Redelegate(e.Ctx, Dels[0], AV(e, Vals[1]), AV(e, Vals[2]), sdk.NewCoin(Denoms[0], amt)) }) {
+	if Caught(func() {
+		_, err = e.K.Redelegate(e.Ctx, Dels[0], AV(e, Vals[1]), AV(e, Vals[2]), sdk.NewCoin(Denoms[0], amt))
+	}) {
 		return
 	}
 	if blocked {
